@@ -1352,7 +1352,7 @@ func (e *pEngine) execList(st *pState, fr *pFrame, list []ast.Stmt, from int) []
 					case j < 0:
 						out = append(out, r)
 					case j <= i || r.st.jumps > 6:
-						e.emitOut(r.st, "goto:back", "", "")
+						e.emitOut(r.st, "loop:back", "", "")
 						r.st.jumps = -1
 						out = append(out, pRes{r.st, pCtl{kind: cDead}})
 					default:
